@@ -21,8 +21,25 @@ class CountingCalc:
         return COUNTS.get(id(self), 0)
 
 
+class MemoCalc(CountingCalc):
+    """A user's calc_func that memoises: the same arguments give back the
+    *same* hologram object it keeps (the library must not write into it)."""
+    __slots__ = ()
+
+    def __call__(self, detector, scatterer, **kw):
+        from holopy.scattering import calc_holo
+        COUNTS[id(self)] = COUNTS.get(id(self), 0) + 1
+        key = (id(self), id(detector), repr(scatterer),
+               repr(sorted((k, repr(v)) for k, v in kw.items())))
+        hit = MEMO.get(key)
+        if hit is None or hit[0] is not detector:
+            hit = MEMO[key] = (detector, calc_holo(detector, scatterer, **kw))
+        return hit[1]
+
+
 COUNTS = {}
 COUNTERS = {}
+MEMO = {}
 
 
 @op('rigid_cluster')
@@ -57,7 +74,7 @@ def model(ctx, kind, sc, alpha=None, optics=None, th='auto',
                        else 1, theory=theo, constraints=cons, **kw)
     else:
         if counting:
-            cc = CountingCalc()
+            cc = MemoCalc() if counting == 'memo' else CountingCalc()
             m = ExactModel(scat, calc_func=cc, theory=theo,
                            constraints=cons, **kw)
         else:
